@@ -163,28 +163,20 @@ theorem armorHeaderLine_ok (t : BlockType) (nl R : Bytes) (ht : typeOk t = true)
 
 /-- **the header stage on well-formed armor text**: leading text without dashes, LF or CRLF line
 endings, a separator line of blanks and tabs, any admissible type and header map, followed by
-anything that contains no colon -/
+anything at all (the header-line parser only ever looks at one line) -/
 theorem headerParser_headText (lead nl ws : Bytes) (t : BlockType) (h : Headers) (X : Bytes)
     (hlead : ∀ b ∈ lead, b ≠ 45) (hnl : IsNl nl) (hws : ∀ b ∈ ws, b = SP ∨ b = TAB)
-    (ht : typeOk t = true) (hh : WFHeaders h = true) (hX : ∀ b ∈ X, b ≠ COLON) :
+    (ht : typeOk t = true) (hh : WFHeaders h = true) :
     headerParser (headText lead nl ws t h ++ X) = .ok (t, h, !lead.isEmpty) X := by
   obtain ⟨hps, hne, hsorted⟩ := WFHeaders_pairs h hh
-  have hY : ∀ b ∈ ws ++ nl ++ X, b ≠ COLON := by
-    intro b hb
-    simp only [List.mem_append] at hb
-    rcases hb with (hb | hb) | hb
-    · rcases hws b hb with rfl | rfl <;> decide
-    · rcases hnl with rfl | rfl
-      · simp at hb; subst hb; decide
-      · simp at hb; rcases hb with rfl | rfl <;> decide
-    · exact hX b hb
   have hcl : t ≠ .cleartext := by intro e; subst e; simp [typeOk] at ht
   have e : headText lead nl ws t h ++ X =
       lead ++ (DASH5 ++ (asc "BEGIN " ++ (typeName t ++ (DASH5 ++ (nl ++ (pairLines nl (pairsOf h) ++ (ws ++ nl ++ X))))))) := by
     simp [headText, List.append_assoc]
   rw [e]
   simp only [headerParser, splitOnSub_lead lead _ hlead, armorHeaderLine_ok t nl _ ht hnl]
-  have hk := kvPairs_lines nl hnl (ws ++ nl ++ X) hY (pairsOf h) (pairLines nl (pairsOf h) ++ (ws ++ nl ++ X)).length hps
+  have hk := kvPairs_lines nl hnl (ws ++ nl ++ X) (kvPair_blank ws nl X hws hnl) (pairsOf h)
+    (pairLines nl (pairsOf h) ++ (ws ++ nl ++ X)).length hps
     (by have := pairLines_length_ge nl (pairsOf h); simp only [List.length_append]; omega)
   have hins := foldl_insert_pairs h [] (by simpa using hsorted) hne
   simp only [armorHeaders, hcl, if_false, hk, hins, List.nil_append, space0_ws ws nl X hws hnl,
